@@ -51,6 +51,11 @@ DIRECTED = [
     '  { byte pad[a + 1]; for (int[] it = [0, 5 + b]; it[0] < it[1]; it[0] += 1) { int tmp[3]; tmp[2] = it[0]; total += tmp[2]; write(\'i\'); } }\n  write(total); int[] z = [4]; write(z[0]);\n}\n',
     'int spin(int a, int b) { bool[] m = [true, false, true]; int n = 0; while (true) { int q[a + 1]; q[0] = n; n += 1; write(\'q\'); if (n > 5 + b) { return n + q[0]; } } }\n'
     'empty @is_you(int a, int b) { write(spin(a, b)); if (a > 1) { string[] ss = ["x", "y"]; int j = 0; while (j < 4) { int w[2]; w[1] = j; j += 1 + w[1]; write(\'w\'); } write(j); } write(spin(b, a)); }\n',
+    # a block that owns an array, directly contains a preempt block ending in continue / break / return, and otherwise falls off its end
+    'empty @is_you(int a, int b) {\n  int total = 0;\n  try {\n    for (int i = 0; i < 8; i += 1) {\n      int sq[2 + a];\n      sq[0] = i * i;\n      if (i == b) { } else { int tmp[3]; tmp[0] = sq[0]; preempt { continue; } total += tmp[0]; write(i); }\n      write(\'.\');\n    }\n'
+    '    !truth_is_defeat(total > 50 + a);\n    write(total);\n  } undo { write("U"); }\n  int[] z = [5]; write(z[0]);\n}\n',
+    'int !walk(int a, int b) {\n  int n = 0;\n  while (n < 6) {\n    n += 1;\n    { byte[] pad = [\'p\', \'q\']; int big[n]; preempt { break; } write(n); }\n    { bool[] m = [true, false]; preempt { return n * 10; } write(\'m\'); }\n  }\n  !truth_is_defeat(n > a + b);\n  return n;\n}\n'
+    'empty @is_you(int a, int b) { try { write(!walk(a, b)); } stop { write("S"); } try { write(!walk(b + 3, a)); } undo { write("U"); } int[] z = [6]; write(z[0]); }\n',
 ]
 
 
